@@ -17,6 +17,8 @@ import (
 	"golang.org/x/tools/go/packages"
 	"golang.org/x/tools/go/ssa"
 	"golang.org/x/tools/go/ssa/ssautil"
+
+	"verif/checker/internal/ir"
 )
 
 const GoRoot = "/opt/veriftools/go1.26.8"
@@ -321,6 +323,7 @@ func Load(repo, goarch string) (*World, error) {
 	}
 	ssapkgs = ssapkgs[:len(w.All)]
 	prog.Build()
+	ir.ScanEnumUses(prog)
 	w.Prog = prog
 	for i, sp := range ssapkgs {
 		w.SSA[Logical(w.All[i].PkgPath)] = sp
